@@ -359,6 +359,8 @@ impl CompressedStreamWriter {
             return;
         }
         let num_bytes_to_compress = self.uncompressed_block.len().min(self.block_threshold);
+        #[cfg(feature = "verif")]
+        let verif_output_len_before = self.output.len();
 
         self.compressed_block.resize(num_bytes_to_compress, 0u8);
         match zstd::bulk::compress_to_buffer(
@@ -383,6 +385,11 @@ impl CompressedStreamWriter {
                     .extend(&self.uncompressed_block[..num_bytes_to_compress]);
             }
         }
+        #[cfg(feature = "verif")]
+        crate::verif::log_flush(
+            &self.uncompressed_block[..num_bytes_to_compress],
+            &self.output[verif_output_len_before..],
+        );
         self.uncompressed_block.drain(..num_bytes_to_compress);
     }
 
